@@ -269,7 +269,7 @@ class Prop(core.Prop):
                                for v in vs):
                             continue
                         vs.append(viol('write-' + c, ('writer', fmt), det, **scope))
-                    if not vs and wraw != raw and not d.get('hdr_nz0'):
+                    if not vs and wraw != raw and not d.get('hdr_nz0') and not d.get('end24'):
                         vs.append(viol('write-bytes', ('writer', fmt),
                                        'decodes to the recipe but differs from the reference encoding '
                                        '(%d vs %d bytes)' % (len(wraw), len(raw)), **scope))
